@@ -55,6 +55,14 @@ func c19r4(c *core.Ctx) {
 		if !uses {
 			continue // implemented independently: nothing to agree with here
 		}
+		// a method of the object model (Compare of Comparable: (int, error)) is
+		// not the script's wrapper of the Go function of that name, whatever it
+		// uses: the wrappers return script objects
+		if res := sf.Signature.Results(); res.Len() > 0 {
+			if _, basic := res.At(0).Type().Underlying().(*types.Basic); basic {
+				continue
+			}
+		}
 		n++
 		bad := ""
 		for _, b := range sf.Blocks {
@@ -62,6 +70,12 @@ func c19r4(c *core.Ctx) {
 				r, ok := in.(*ssa.Return)
 				if !ok || len(r.Results) == 0 {
 					continue
+				}
+				// a (value, error) function on the path on which it reports an error
+				if k := len(r.Results); k > 1 && isErrorType(r.Results[k-1].Type()) {
+					if cst, isConst := r.Results[k-1].(*ssa.Const); !isConst || !cst.IsNil() {
+						continue
+					}
 				}
 				rv := spilledResult(b, r.Results[0])
 				if isErrorType(rv.Type()) || core.IsNamed(rv.Type(), pkgPath("object"), "Error") {
